@@ -307,11 +307,6 @@ func (l *commitLog) EarliestOffsetAfterTimestamp(timestamp int64) (int64, error)
 	// Find the first segment whose base timestamp is greater than the given
 	// timestamp.
 	idx, err := findSegmentIndexByTimestamp(l.segments, timestamp)
-	if err == io.EOF {
-		// EOF indicates there is no such segment, meaning the timestamp is
-		// beyond the end of the log so return the next assignable offset.
-		return l.segments[len(l.segments)-1].NextOffset(), nil
-	}
 	if err != nil {
 		return 0, errors.Wrap(err, "failed to find log segment for timestamp")
 	}
@@ -335,13 +330,15 @@ func (l *commitLog) EarliestOffsetAfterTimestamp(timestamp int64) (int64, error)
 	// is greater than or equal to the target timestamp. In this case, search
 	// the next segment if there is one. If there isn't, the timestamp is
 	// beyond the end of the log so return the next assignable offset.
-	if idx < len(l.segments)-1 {
+	if idx > 0 && idx < len(l.segments) {
 		seg = l.segments[idx]
 		entry, err := seg.findEntryByTimestamp(timestamp)
-		if err != nil {
+		if err == nil {
+			return entry.Offset, nil
+		}
+		if err != ErrEntryNotFound && err != io.EOF {
 			return 0, errors.Wrap(err, "failed to find log entry for timestamp")
 		}
-		return entry.Offset, nil
 	}
 	return l.segments[len(l.segments)-1].NextOffset(), nil
 }
@@ -366,7 +363,7 @@ func (l *commitLog) LatestOffsetBeforeTimestamp(timestamp int64) (int64, error) 
 		seg = l.segments[0]
 		// if the given timestamp is before the start of the stream return an
 		// error.
-		if timestamp < seg.FirstWriteTime() {
+		if seg.IsEmpty() || timestamp < seg.FirstWriteTime() {
 			return 0, errors.New("timestamp is before the beginning of the log")
 		}
 	} else {
